@@ -146,12 +146,16 @@ package topic
 //@   requires [locked] held[t.mutex] == 2 && std(t)
 //@   requires [node] isnode[node] && wf()
 //@   ensures [wf] wf() && forall m *node {isnode[m]} :: old(isnode[m]) ==> isnode[m]
+//@   ensures [leaf-in] topic == topicEnd ==> inl(node.values, value)
+//@   ensures [leaf-len] topic == topicEnd ==> len(node.values) == old(len(node.values)) || len(node.values) == old(len(node.values)) + 1
+//@   ensures [leaf-kept] topic == topicEnd ==> forall k int {old(node.values[k])} :: 0 <= k && k < old(len(node.values)) ==> node.values[k] == old(node.values[k])
 //@   modifies any(node.values), anymap(map[string]*node), elemsof(iface), isnode
 //@   loop 1 invariant [range] 0 <= rangeindex + 1 && rangeindex + 1 <= len(node.values) && wf() && (forall m *node {isnode[m]} :: old(isnode[m]) ==> isnode[m])
 //@ func (t *Tree) set(value interface{}, topic string, node *node)
 //@   requires [locked] held[t.mutex] == 2 && std(t)
 //@   requires [node] isnode[node] && wf()
 //@   ensures [wf] wf() && forall m *node {isnode[m]} :: old(isnode[m]) ==> isnode[m]
+//@   ensures [leaf-set] topic == topicEnd ==> len(node.values) == 1 && node.values[0] == value
 //@   modifies any(node.values), anymap(map[string]*node), elemsof(iface), isnode
 //@ func (t *Tree) get(topic string, node *node) (r []interface{})
 //@   requires [locked] held[t.mutex] >= 1 && std(t)
@@ -164,6 +168,8 @@ package topic
 //@   ensures [wf] wf() && forall m *node {isnode[m]} :: old(isnode[m]) ==> isnode[m]
 //@   ensures [empty-means-empty] empty ==> len(node.values) == 0 && len(node.children) == 0
 //@   at call 1 delete assert [pruned-empty] len(child.values) == 0 && len(child.children) == 0
+//@   ensures [leaf-removed] topic == topicEnd && value == nil ==> len(node.values) == 0
+//@   ensures [leaf-others-kept] topic == topicEnd && value != nil ==> len(node.values) == old(len(node.values)) || len(node.values) == old(len(node.values)) - 1
 //@   modifies any(node.values), anymap(map[string]*node), elemsof(iface)
 //@ func (t *Tree) clear(value interface{}, node *node) (empty bool)
 //@   requires [locked] held[t.mutex] == 2
